@@ -33,6 +33,9 @@ pub struct Mut {
     pub parent: Option<usize>,
     pub pet: Option<usize>,
     pub room: Option<usize>,
+    /// the assigned scalar values are the ones the row was created with (an assignment that may change nothing)
+    #[serde(default)]
+    pub keep: bool,
 }
 
 #[derive(Clone, Debug, Serialize, Deserialize)]
@@ -64,6 +67,9 @@ fn shape(m: &Mut) -> String {
     if m.room.is_some() {
         v.push("room-move")
     }
+    if m.keep {
+        v.push("initial-values")
+    }
     v.join("+")
 }
 
@@ -78,10 +84,14 @@ fn gen_mut(r: &mut Rng) -> Mut {
         _ => {
             m.room = Some(1);
             m.name = true;
+            m.keep = r.chance(1, 2);
         }
     }
     if r.chance(1, 5) {
         m.age = true;
+    }
+    if r.chance(1, 8) {
+        m.keep = true;
     }
     m
 }
@@ -127,6 +137,16 @@ pub fn directed(property: &str) -> Vec<Trace> {
         mk("C16 the same, serialised (R1 V1 W1 R2 V2 W2)", false, vec![Step::Issue { m: name.clone() }, Step::Flush, Step::Issue { m: nick.clone() }, Step::Flush]),
         mk("C16 reference add and field update in flight together", false, vec![Step::Issue { m: Mut { parent: Some(0), ..Default::default() } }, Step::Issue { m: name.clone() }, Step::Flush]),
         mk("C16 room move and field update in flight together", false, vec![Step::Issue { m: Mut { room: Some(1), name: true, ..Default::default() } }, Step::Issue { m: nick.clone() }, Step::Flush]),
+        mk(
+            "C16 one at a time: a room move that re-sends the unchanged name, then another field",
+            false,
+            vec![Step::Issue { m: Mut { room: Some(1), name: true, keep: true, ..Default::default() } }, Step::Flush, Step::Issue { m: nick.clone() }, Step::Flush],
+        ),
+        mk(
+            "C16 one at a time: a field set, then the same field set back to its first value together with a reference",
+            false,
+            vec![Step::Issue { m: name.clone() }, Step::Flush, Step::Issue { m: Mut { name: true, keep: true, parent: Some(0), ..Default::default() } }, Step::Flush],
+        ),
         mk("C16 two mutations pipelined on the mutation stream", true, vec![Step::Issue { m: name }, Step::Issue { m: nick }, Step::Flush]),
     ]
 }
@@ -213,15 +233,15 @@ fn run(w: &mut World, cfg: &Cfg, steps: &[Step]) -> Result<(), String> {
                 p.insert("id".into(), row.clone().into());
                 if m.name {
                     fields.push_str(" name:$n");
-                    p.insert("n".into(), format!("name-m{i}").into());
+                    p.insert("n".into(), if m.keep { "name0".to_string() } else { format!("name-m{i}") }.into());
                 }
                 if m.nick {
                     fields.push_str(" nick:$k");
-                    p.insert("k".into(), format!("nick-m{i}").into());
+                    p.insert("k".into(), if m.keep { "nick0".to_string() } else { format!("nick-m{i}") }.into());
                 }
                 if m.age {
                     fields.push_str(" age:$a");
-                    p.insert("a".into(), (100 + i as i64).into());
+                    p.insert("a".into(), (if m.keep { 0 } else { 100 + i as i64 }).into());
                 }
                 if let Some(t) = m.parent {
                     fields.push_str(" parents:[{id:$t}]");
@@ -362,13 +382,13 @@ fn run(w: &mut World, cfg: &Cfg, steps: &[Step]) -> Result<(), String> {
     // legal finals: every permutation of the acknowledged mutations applied serially
     let apply = |s: &mut RowState, i: usize, m: &Mut| {
         if m.name {
-            s.name = format!("name-m{i}");
+            s.name = if m.keep { "name0".to_string() } else { format!("name-m{i}") };
         }
         if m.nick {
-            s.nick = Some(format!("nick-m{i}"));
+            s.nick = Some(if m.keep { "nick0".to_string() } else { format!("nick-m{i}") });
         }
         if m.age {
-            s.age = 100 + i as i64;
+            s.age = if m.keep { 0 } else { 100 + i as i64 };
         }
         if let Some(t) = m.parent {
             let id = others[t % 2].clone();
